@@ -68,7 +68,18 @@ def _candidates(case):
                 yield _set(case, path, 0)
                 yield _set(case, path, node // 2)
         elif isinstance(node, str):
-            if len(node) > 2:
+            if "\n" in node:
+                # source text: delta-debug by lines (chunks first)
+                lines = node.split("\n")
+                n = len(lines)
+                size = n // 2
+                while size >= 1:
+                    for i in range(0, n, size):
+                        yield _set(case, path, "\n".join(lines[:i] + lines[i + size:]))
+                    if size == 1:
+                        break
+                    size //= 2
+            elif len(node) > 2:
                 yield _set(case, path, node[: len(node) // 2])
                 yield _set(case, path, node[:2])
         elif isinstance(node, list):
